@@ -251,9 +251,10 @@ func (br *xmpReader) readTagValue() (buf []byte, err error) {
 			err = errors.Wrap(err, "Tag Value")
 			return
 		}
-		if i == 0 {
+		if i == j {
 			// the tag header (or its last attribute) has consumed the closing '>': what follows is the value
-			// removes white space and new lines prefixes
+			// removes white space and new lines prefixes; i == j exactly while nothing but white space has been seen,
+			// so a run longer than one look-ahead window is skipped as well
 			for ; i < len(buf); i++ {
 				if isSpace(buf[i]) {
 					continue
